@@ -274,7 +274,11 @@ def finish(ctx, level, rule, extra_cov=None, assumptions=None):
                evaluations=ctx.events, distinct_nontrivial=len(ctx.nontrivial) if ctx.nontrivial else max(ctx.traces, 0),
                rule=rule, samples=ctx.samples[:3] or [{"note": "no scenario executed"}],
                model_checking=ctx.mc, counters=ctx.cnt, crashes=ctx.crashes, inconclusive_witnesses=ctx.inconclusive,
-               known_findings=[kid for kid in kn], notes=ctx.notes)
+               known_findings=[kid for kid in kn], notes=ctx.notes,
+               spec_drift=sorted({"%s: %s" % (v["call"], v["why"][:160]) for v in ctx.verdicts if "SPEC-DRIFT" in v["props"]})[:20],
+               spec_drift_count=sum(1 for v in ctx.verdicts if "SPEC-DRIFT" in v["props"]),
+               harness_verdicts=sum(1 for v in ctx.verdicts if "HARNESS" in v["props"]),
+               watchdog_retries=getattr(ctx, "slow_retries", 0))
     if extra_cov:
         cov.update(extra_cov)
     ev = dict(property_id=prop, tier=ctx.tier, seed=ctx.seed, level=level, coverage=cov,
